@@ -310,7 +310,7 @@ tr!(c04_mp_view_inview, hk_c04_mp_view_inview, MpT, 5, 1, [3, 1, 0], TrCfg { per
 // the same with two live senders: the producer runs the multi-writer path (CAS claim loop)
 tr!(c18_bc_shared_inclone_mw, hk_c18_bc_shared_inclone_mw, BcT, 2, 1, [2, 1, 1], TrCfg { multi_writer: true, ..IN_CLONE });
 // consumer A is in the middle of clone() when its sibling handle is dropped (consumers 2 -> 1)
-tr!(c06_bc_sibdrop_inclone, hk_c06_bc_sibdrop_inclone, BcT, 6, 1, [2, 1, 1], TrCfg { teardown: false, ..IN_CLONE });
+tr!(c06_bc_sibdrop_inclone, hk_c06_bc_sibdrop_inclone, BcT, 6, 1, [1, 1, 1], TrCfg { teardown: false, budget: 2, per_site: 2, pre_send: 2, pre_recv: 1, ..IN_CLONE });
 tr!(c06_bc_sibdrop_all, hk_c06_bc_sibdrop_all, BcB, 6, 1, [1, 1, 1], TrCfg { pre_send: 2, pre_recv: 1, ..QUICK });
 // all preemption sites, instrumented payload, teardown at the end
 tr!(c04_bc_shared_all, hk_c04_bc_shared_all, BcT, 2, 1, [1, 1, 1], TrCfg { pre_send: 2, pre_recv: 1, teardown: true, ..QUICK });
